@@ -35,8 +35,19 @@ func genCast(r *Rand, tier string, lo, hi int) []Principal {
 	n := r.Range(lo, hi)
 	used := map[Principal]bool{}
 	var out []Principal
+	// one run in twelve: every principal uses the same key algorithm
+	mono := ""
+	if r.Chance(0.085) {
+		mono = Pick(r, allAlgs)
+		if n > poolSize[mono] {
+			n = poolSize[mono]
+		}
+	}
 	for len(out) < n {
 		alg := pickAlg(r, tier)
+		if mono != "" {
+			alg = mono
+		}
 		p := Principal{alg, r.Intn(poolSize[alg])}
 		if used[p] {
 			// take the next free key of that algorithm, or fall back to ed25519
@@ -480,7 +491,7 @@ func (g *wgen) buildChain(n int, tcSec int64, args []KV) *chain {
 // bounds draws optional bounds that strictly contain tcSec.
 func (g *wgen) bounds(nbf, exp **int64, tcSec int64) {
 	r := g.r
-	margins := []int64{1, 2, 60, 3600, 86400 * 400, 86400 * 365 * 30}
+	margins := []int64{1, 2, 60, 3600, 86400 * 400, 86400 * 365 * 30, 86400 * 365 * 200} // (a time.Duration spans 292 years: With…In cannot express more)
 	if r.Chance(0.5) {
 		*exp = ptr(tcSec + 1 + Pick(r, margins))
 	}
@@ -599,6 +610,20 @@ func genWorld(r *Rand, cfg GenCfg) Plan {
 				g.deviateQ(c)
 			case "W":
 				g.deviateW(c, tcSec)
+			}
+		}
+	}
+
+	// --- inert extra arguments no statement talks about: unusual keys, deeper nesting, many keys
+	if r.Chance(0.2) {
+		extra := []KV{{"k.dot", vInt(1)}, {"ü ñ", vStr("x")}, {"a b", vBool(true)}, {"", vInt(0)}, {"deep", vMap(KV{"a", vMap(KV{"b", vList(vMap(KV{"c", vList(vInt(1), vFloat(-2.5), vStr(""))}), vList())})})},
+			{"neg", vInt(-9007199254740991)}, {"fl", vFloat(1e300)}, {"nul", vNull()}, {"by", vBytes([]byte{0, 1, 2})}}
+		for _, i := range r.Perm(len(extra))[:r.Range(1, len(extra))] {
+			c.inv.Args = append(c.inv.Args, extra[i])
+		}
+		if r.Chance(0.3) {
+			for i := 0; i < 40; i++ {
+				c.inv.Args = append(c.inv.Args, KV{fmt.Sprintf("many%02d", i), vInt(int64(i))})
 			}
 		}
 	}
@@ -856,7 +881,7 @@ func (g *wgen) deviateP(c, foreign *chain, notShipped map[string]bool) {
 	} else if k == n-1 {
 		pos = "leaf"
 	}
-	choice := r.Intn(12)
+	choice := r.Intn(14)
 	if len(c.inv.Prf) == 0 && choice >= 5 && choice <= 10 {
 		g.note("P:empty")
 		return
@@ -925,9 +950,18 @@ func (g *wgen) deviateP(c, foreign *chain, notShipped map[string]bool) {
 		i := r.Intn(len(c.inv.Prf))
 		c.inv.Prf[i] = "ghost" + fmt.Sprint(i)
 		g.note("P:missing-delegation")
-	default:
+	case 11:
 		notShipped[c.dlgs[k].Label] = true
 		g.note("P:not-shipped@" + pos)
+	case 12:
+		// the audience is a look-alike of the principal it should be (another key whose
+		// did:key string differs only in the case of one letter)
+		c.dlgs[k].Aud += lookAlike
+		g.note("P:lookalike-aud@" + pos)
+	default:
+		c.dlgs[k].Sub += lookAlike
+		c.dlgs[k].UseRoot = false
+		g.note("P:lookalike-sub@" + pos)
 	}
 }
 
